@@ -243,30 +243,48 @@ def coords_history(case, ctx):
 
 @hyp("C12", "mega", lambda tier: st.fixed_dictionaries({"shape": gen.mega_shape().map(list),
                                                         "modes": st.lists(st.integers(1, 11), min_size=2, max_size=4, unique=True),
-                                                        "seed": st.integers(0, 2**31 - 1)}),
-     "fit(compose(c)) == c and remove(pure) == 0 on a mask of more than 2^20 samples", examples=(2, 8),
-     budget_s=(200, 800))
+                                                        "seed": st.integers(0, 2**31 - 1),
+                                                        "kind": st.sampled_from(["full", "sub_aperture", "sub_aperture"])}),
+     "fit(compose(c)) == c and remove(pure) == 0 on a mask of more than 2^20 samples: a full-frame aperture with a "
+     "few modes, or one small off-centre sub-aperture fitted with 21-28 modes in the coordinates of the whole pupil "
+     "(independent but poorly conditioned: 1e6 .. 1e11)", examples=(3, 10), budget_s=(250, 900))
 def mega(case, ctx):
     m, n = case["shape"]
     modes = case["modes"]
     rng = np.random.default_rng(case["seed"])
     yy, xx = np.mgrid[0:m, 0:n]
-    mask = (((yy - m / 2) / (0.46 * m)) ** 2 + ((xx - n / 2) / (0.47 * n)) ** 2 <= 1).astype(int)
+    kw = {}
+    if case.get("kind", "full") == "full":
+        mask = (((yy - m / 2) / (0.46 * m)) ** 2 + ((xx - n / 2) / (0.47 * n)) ** 2 <= 1).astype(int)
+        nsamp = mask.size
+    else:
+        pupil = (((yy - m / 2) / (0.46 * m)) ** 2 + ((xx - n / 2) / (0.47 * n)) ** 2 <= 1).astype(int)
+        rad = 10 + case["seed"] % 8
+        r0, c0 = int(m * 0.5 + 0.2 * m * np.cos(case["seed"])), int(n * 0.5 + 0.2 * n * np.sin(case["seed"]))
+        mask = ((yy - r0) ** 2 + (xx - c0) ** 2 <= rad ** 2).astype(int)
+        modes = list(range(1, 22))
+        rho, theta = lentil.zernike_coordinates(pupil)
+        kw = {"rho": rho, "theta": theta}
+        nsamp = int(mask.sum())
     c = rng.uniform(-3, 3, size=len(modes))
-    ctx.tag("mega", f"k:{len(modes)}")
+    ctx.tag("mega", f"k:{len(modes)}", "kind:" + case.get("kind", "full"))
     ctx.nontrivial_if(True)
     with lentil_call("C12.mega", f"zernike_basis / fit / remove on a {m}x{n} mask"):
-        B = lentil.zernike_basis(mask, modes)
+        B = lentil.zernike_basis(mask, modes, **kw)
         opd = np.einsum("i,ijk->jk", c, B)
-        got = np.asarray(lentil.zernike_fit(opd, mask, modes), dtype=float)
-        res = np.asarray(lentil.zernike_remove(opd, mask, modes), dtype=float)
+        got = np.asarray(lentil.zernike_fit(opd, mask, modes, **kw), dtype=float)
+        # (removal repeats the fit and the basis: only for the cheap few-mode case)
+        res = np.asarray(lentil.zernike_remove(opd, mask, modes, **kw), dtype=float) if not kw else None
     A = B.reshape(len(modes), -1)[:, mask.ravel() != 0]
     sv = np.linalg.svd(A, compute_uv=False)
     cond = float(sv[0] / sv[-1])
-    tol = cond * 256 * np.finfo(float).eps * 3.0 * np.sqrt(mask.size)
+    if not cond < 1e12:
+        raise Skip("ill_conditioned_mode_set")
+    ctx.tag(f"cond:1e{int(np.log10(cond))}")
+    tol = cond * 256 * np.finfo(float).eps * 3.0 * np.sqrt(len(modes)) * max(1.0, np.sqrt(nsamp) / 16)
     if np.max(np.abs(got - c)) > tol:
         raise Violation("C12.mega.roundtrip", f"zernike_fit(modes={modes}) on a {m}x{n} mask = {got.tolist()}, composed "
                                               f"with {c.tolist()}")
-    if np.max(np.abs(res[mask != 0])) > tol * 10:
+    if res is not None and np.max(np.abs(res[mask != 0])) > tol * 10:
         raise Violation("C12.mega.remove", f"zernike_remove of an OPD made of the removed modes leaves "
                                            f"{np.max(np.abs(res[mask != 0])):.3e} on a {m}x{n} mask")
